@@ -13,6 +13,7 @@ import GoaktVerif.Lemmas.C45.Sem
 import GoaktVerif.Lemmas.C45.Flow
 import GoaktVerif.Lemmas.C45.Sink
 import GoaktVerif.Lemmas.C45.Bridge
+import GoaktVerif.Lemmas.C45.FusedBridge
 
 namespace GoaktVerif.C45
 open GoaktVerif.Model.C45 GoaktVerif.Spec.C45
@@ -137,6 +138,40 @@ theorem C45_partial (stages : List Stage) (input : List Val) (picks : List Pick)
   simp only at hn
   rw [hFs, hlen, idealAt_eq_semF, semF_eq_sem stages h] at hn
   exact hn
+
+/-- the same with stage fusion ON (`applyFusion` merges runs of ≥ 2 adjacent Map/TryMap/Filter stages into one
+    fusedFlowActor that composes them element by element): still the list semantics. -/
+theorem C45_partial_fused (stages : List Stage) (input : List Val) (picks : List Pick) (s : SinkSt)
+    (h : flowPipeline stages) (hs : ((mkNet true stages input).run picks).sink? = some s) :
+    SinkOK stages input s := by
+  have hn := net_correct true stages input picks s h hs
+  have hmids : midsOf true stages = (groupRuns stages []).map nodeOfGroup := by
+    simp [midsOf, fuseRuns_eq]
+  have hFs : (rawNet (midsOf true stages) input).nodes.map midF =
+      midF (.src { rest := input }) ::
+        (((groupRuns stages []).map fun g => midF (nodeOfGroup g)) ++ [midF (.sink defaultCfg {})]) := by
+    simp only [rawNet, hmids, List.map_cons, List.map_append, List.map_map, List.map_nil]
+    rfl
+  have hlen : (midsOf true stages).length = ((groupRuns stages []).map fun g => midF (nodeOfGroup g)).length := by
+    simp [hmids]
+  simp only at hn
+  rw [hFs, hlen, idealAt_eq_semF] at hn
+  have hrel := semF_groups (groupRuns stages []) (groupRuns_good stages [] h (by simp)) input
+  rw [groupRuns_flatten] at hrel
+  simp only [List.reverse_nil, List.nil_append] at hrel
+  obtain ⟨r1, r2, r3⟩ := hrel
+  obtain ⟨k1, k2, k3, k4, k5⟩ := hn
+  refine ⟨k1, k2, by rw [← r1]; exact k3, fun ha he => ?_, fun e he => r3 e (k5 e he)⟩
+  obtain ⟨h1, h2⟩ := k4 ha he
+  exact ⟨by rw [← r1]; exact h1, r2.mp h2⟩
+
+/-- C45 for every pipeline without parallel stages, both fusion modes, every input, every schedule -/
+theorem C45_partial_all (fusion : Bool) (stages : List Stage) (input : List Val) (picks : List Pick) (s : SinkSt)
+    (h : flowPipeline stages) (hs : ((mkNet fusion stages input).run picks).sink? = some s) :
+    SinkOK stages input s := by
+  cases fusion with
+  | false => exact C45_partial stages input picks s h hs
+  | true => exact C45_partial_fused stages input picks s h hs
 
 /-! non-vacuity -/
 example : flowPipeline [.map 1, .filter 2 0, .scan, .batch 3, .flatten, .buffer 3] := by
